@@ -259,12 +259,19 @@ func racePass(rep *Report) map[string]any {
 	sigs := map[string]bool{}
 	for i, r := range pool.RunAll(jobs) {
 		if r.Crash != "" {
-			cls := "other"
+			cls := ""
 			switch {
 			case strings.Contains(r.Crash, "concurrent map"):
 				cls = "concurrent-map-access"
-			case strings.Contains(r.Crash, "timeout"):
-				cls = "timeout"
+			case strings.Contains(r.Crash, "fatal error: sync:"):
+				cls = "lock-misuse"
+			case strings.Contains(r.Crash, "panic:"):
+				cls = "panic"
+			}
+			if cls == "" {
+				// a killed or timed-out free-running process (load, memory) says nothing about chf
+				rep.EngineError(fmt.Sprintf("race pass %s: worker ended without result: %s", names[i], oneLine(r.Crash, 300)))
+				continue
 			}
 			rep.Finding("race-pass-process-crash/"+cls+"/"+names[i], fmt.Sprintf("free-running scenario %s: the process died: %s", names[i], oneLine(r.Crash, 600)), map[string]any{"job": json.RawMessage(jobs[i].Args), "kind": "race"})
 			continue
